@@ -1123,7 +1123,10 @@ bool GennaroJareckiKrawczykRabinDKG::Reconstruct
 	myID << "GennaroJareckiKrawczykRabinDKG::Reconstruct()" << p << q << g << h << n << t;
 	for (std::vector<size_t>::const_iterator it = complaints.begin(); it != complaints.end(); ++it)
 		myID << "[" << *it << "]";
-	rbc->setID(myID.str());
+	// the same channel is entered again, if polynomials of the same parties
+	// are reconstructed more than once (e.g. by both instances during signing);
+	// thus continue the sequence counters instead of restarting them
+	rbc->recoverID(myID.str());
 
 	try
 	{
